@@ -92,6 +92,28 @@ pub fn run(ctx: &Ctx) -> Outcome {
     let mut rep = run_sharded(ctx, |w, nw, rep| {
         let ls = LangSet::new();
         let mut rng = Rng::derive(ctx.seed, "C02", w as u64);
+        // bounded exhaustive part: every stream of 1..4 (thorough 1..5) tokens over the small alphabet of each language, as a
+        // caller token stream without whitespace tokens and as the text of its words joined by single spaces
+        let (n_small, cut) = crate::streams::for_each_small_stream(&ls.lex, if ctx.quick() { 4 } else { 5 }, w, nw, &|| ctx.elapsed() > ctx.budget_s * 0.4, &mut |code, toks| {
+            let s: String = toks.iter().map(|t| t.text.as_str()).collect::<Vec<_>>().join(" ");
+            for &t in [0.0, 10.0].iter() {
+                let (_n, fail) = check_text(&ls, code, &s, t);
+                if let Some(msg) = fail {
+                    rep.violation(&format!("{}:{}", code, &msg[..3]), jobj! {"kind" => "text", "lang" => code, "text" => s.as_str(), "threshold" => format!("{}", t)}, format!("[{} t={}] {}", code, t, msg));
+                    break;
+                }
+                let (_n, fail) = check_stream(&ls, code, toks, t);
+                if let Some(msg) = fail {
+                    rep.violation(&format!("{}:stream", code), jobj! {"kind" => "stream", "lang" => code, "threshold" => format!("{}", t), "tokens" => crate::streams::stream_json(toks)}, format!("[{} t={}] {} | stream: {}", code, t, msg, crate::streams::show_stream(toks)));
+                    break;
+                }
+            }
+            rep.eval(hash_bytes(&[code.as_bytes(), b"x", s.as_bytes()]), true);
+        });
+        rep.add("exhaustive_small_alphabet_streams_and_texts", n_small);
+        if cut {
+            rep.count("exhaustive_enumeration_cut_by_budget");
+        }
         for i in 0..(n_texts / nw as u64) {
             if i % 128 == 0 && ctx.elapsed() > ctx.budget_s * 0.6 {
                 break;
@@ -166,7 +188,7 @@ pub fn run(ctx: &Ctx) -> Outcome {
     if !ctx.quick() {
         super::legs::fuzz_leg(ctx, &mut rep, 45);
     }
-    let rule = "text form: hostile texts (noise words joined by varied separators, multi-byte salt, mutated vocabulary, linking sentences, annotator-state texts, some 60 words long) at thresholds 0,3,10,inf,NaN: concat(tokens)==input, rewrite == harness-side splice of find_numbers on the same annotated tokens; texts over an alphabet that cannot spell a number (CJK, emoji, Cyrillic, Greek, punctuation, digits) returned identical with no occurrence; stream form: hinted IdTok streams through replace_numbers_in_stream, ids kept or handed to Replace::replace exactly once in order, one replacement per reported occurrence; non-trivial = every text (the equality is checked on all of them) / streams with at least one occurrence";
+    let rule = "bounded exhaustive: every stream of 1..4 (thorough 1..5) tokens over a 16/17-word alphabet per language, as caller stream and as text, thresholds 0 and 10 (counter exhaustive_small_alphabet_streams_and_texts); text form: hostile texts (noise words joined by varied separators, multi-byte salt, mutated vocabulary, linking sentences, annotator-state texts, some 60 words long) at thresholds 0,3,10,inf,NaN: concat(tokens)==input, rewrite == harness-side splice of find_numbers on the same annotated tokens; texts over an alphabet that cannot spell a number (CJK, emoji, Cyrillic, Greek, punctuation, digits) returned identical with no occurrence; stream form: hinted IdTok streams through replace_numbers_in_stream, ids kept or handed to Replace::replace exactly once in order, one replacement per reported occurrence; non-trivial = every text (the equality is checked on all of them) / streams with at least one occurrence";
     finish(ctx, rep, rule, &["tokens come from the crate's own tokenizer exported by hook H1 (feature verif-hooks)"], vec![])
 }
 
